@@ -28,7 +28,7 @@ RULE = ('case = (area, origin) with its whole fan (each ray checked). non-trivia
 ASSUMPTIONS = ['border = cells with y in {ymin,ymax} or x in {xmin,xmax}']
 EXHAUSTIVE_NOTE = 'all areas h,w<=6 (thorough <=11) x all origins, anchored at (0,0) and at shifted/negative offsets; 7x7 view with all origins'
 REQUIRED = {'quick': {'rays.checked': 5000, 'fans.checked': 300, 'cache.compared': 100, 'single_ray.checked': 300,
-                      'unobstructed_visibility': 50}}
+                      'unobstructed_visibility': 50, 'cache.both_fans': 30}}
 
 
 def check_ray(ctx, ray, origin, area, label, payload):
@@ -80,9 +80,17 @@ def as_cells(rays):
     return [[(p.y, p.x) for p in ray] for ray in rays]
 
 
+def clear_caches():
+    """cache_clear() where the cached wrappers offer it (an implementation detail, not part of the property)"""
+    for f in (rt.cached_compute_rays_fancy, rt.cached_compute_rays):
+        clear = getattr(f, 'cache_clear', None)
+        if clear is not None:
+            clear()
+
+
 def cache_history(ctx, queries, rng):
-    """cached vs uncached answers, shuffled query orders, after cache_clear()"""
-    rt.cached_compute_rays_fancy.cache_clear()
+    """cached vs uncached answers (both cached fans, any order of earlier queries), also after cache_clear()"""
+    clear_caches()
     truth = {}
     for (origin, area) in queries:
         ok, rays = call_real(rt.compute_rays_fancy, origin, area)
@@ -92,8 +100,18 @@ def cache_history(ctx, queries, rng):
         order = list(queries)
         rng.shuffle(order)
         if rep == 1:
-            rt.cached_compute_rays_fancy.cache_clear()
-        for (origin, area) in order + order[: len(order) // 2]:
+            clear_caches()
+        for qi, (origin, area) in enumerate(order + order[: len(order) // 2]):
+            if qi % 5 == rep:
+                # the 1-degree fan of the same origin and area, queried through its own cached wrapper, before or after
+                ok1, r1 = call_real(rt.cached_compute_rays, origin, area)
+                ok0, r0 = call_real(rt.compute_rays, origin, area)
+                ctx.hit('cache.compared')
+                ctx.hit('cache.both_fans')
+                if ok1 != ok0 or (ok1 and as_cells(r1) != as_cells(r0)):
+                    ctx.violation('rays', 'cache.differs', f'cached 1-degree fan for origin {(origin.y, origin.x)} area {area} differs from '
+                                  f'the uncached computation ({len(r1) if ok1 else None} vs {len(r0) if ok0 else None} rays)', 'fan_case',
+                                  {'area': [[area.ymin, area.ymax], [area.xmin, area.xmax]], 'origin': [origin.y, origin.x], 'fancy': False})
             ok, rays = call_real(rt.cached_compute_rays_fancy, origin, area)
             ctx.ev()
             ctx.hit('cache.compared')
